@@ -372,8 +372,18 @@ func (g *vfdGen) message(t int, big int) (Message, string) {
 			g.resource(9)}
 		return m, "limits"
 	case 3: // many records
-		n := big
+		n := 20 + g.rnd.Intn(280)
+		if t == 3 { // once per run: as many records as requested (thorough: 65535, the count limit)
+			n = big
+		}
 		kind := g.rnd.Intn(vfdNTypes)
+		if n >= 65535 { // exactly the largest count a section can have
+			for i := 0; i < 65535; i++ {
+				m.Questions = append(m.Questions, g.question())
+			}
+			m.Answers = append(m.Answers, g.resource(kind))
+			return m, "many-65535"
+		}
 		for i := 0; i < n; i++ {
 			if g.rnd.Intn(2) == 0 && len(m.Questions) < 65535 {
 				m.Questions = append(m.Questions, g.question())
@@ -383,6 +393,23 @@ func (g *vfdGen) message(t int, big int) (Message, string) {
 			}
 		}
 		return m, "many"
+	case 5: // compression table entries around offset 0x3FFF (the largest pointer target)
+		q := g.question()
+		m.Questions = []Question{q}
+		filler := Resource{Header: ResourceHeader{Name: q.Name, Class: ClassINET}, Body: &UnknownResource{Type: 99}}
+		m.Answers = []Resource{filler}
+		b0, err := m.Pack()
+		if err != nil || len(b0) > 16000 {
+			return m, "boundary-16k-skipped"
+		}
+		target := 0x3FFF + []int{-6, -3, -2, -1, 0, 1, 2, 5}[(t/8)%8]
+		m.Answers[0].Body = &UnknownResource{Type: 99, Data: g.bytes(target - len(b0))}
+		x := MustNewName(g.label(2) + "." + g.label(3) + "." + g.label(1+g.rnd.Intn(3)) + ".")
+		y := MustNewName(g.label(1) + "." + x.String())
+		for _, n := range []Name{x, x, y, x, y} {
+			m.Authorities = append(m.Authorities, Resource{Header: ResourceHeader{Name: n, Class: ClassINET}, Body: &NSResource{NS: n}})
+		}
+		return m, "boundary-16k"
 	}
 	for i, n := 0, g.rnd.Intn(3); i < n; i++ {
 		m.Questions = append(m.Questions, g.question())
@@ -569,6 +596,9 @@ func TestVerifDnsRound(t *testing.T) {
 		rnd := env.Rand(int64(tno))
 		g := vfdNewGen(rnd)
 		m, class := g.message(tno, big)
+		// Pack writes Type and Length into m's resource headers: the Builder gets its own copy of
+		// the same message with the headers as generated
+		mb, _ := vfdNewGen(env.Rand(int64(tno))).message(tno, big)
 		want := vfdProject(&m)
 		env.Emit(tno, want.put(map[string]any{"e": "msg", "class": class}))
 		fail := func(p, in string) {
@@ -620,7 +650,7 @@ func TestVerifDnsRound(t *testing.T) {
 			}
 			var out []byte
 			var berr error
-			p := vfCatchTimeout(20*time.Second, func() { out, berr = vfdBuild(&m, comp, bprefix, rnd) })
+			p := vfCatchTimeout(20*time.Second, func() { out, berr = vfdBuild(&mb, comp, bprefix, rnd) })
 			if p != "" {
 				fail(p, "Builder")
 				stop = true
